@@ -12,6 +12,10 @@ var MenuCore = []string{
 	"c1:dadd(s1)", "c1:dsub(s1)", "c1:dsuball(s1)", "c1:vcreate(n1)", "c1:vcreatelow(n1)", "c1:!dsign(s1)",
 }
 
+// MenuCode: the code (and code-size) paths of the state database: a contract whose code is read by
+// another contract self-destructs and its address is funded again.
+var MenuCode = []string{"c1:size", "c1:die", "c1:fund", "c1:size+fund"}
+
 var MenuMore = []string{
 	"c1:revert", "c1:store+create", "c1:clear+xfer", "c1:lowgas+badstk", "c1:vwithdrawall(s1)", "c1:vwithdrawmuch(s1)", "c1:von(s1)",
 	"c1:vsettle(s1)", "c1:dsubmuch(s1)", "c1:dsettle(s1)", "c1:dadd2(s1)", "c1:voff(h1)", "c1:vdeposit(h1)",
